@@ -250,7 +250,11 @@ def check_property(prop, modname, tier='quick', native=None, workers=None, extra
 
     # concrete violations from the native stage first (they carry an input)
     if native_res:
+        seen_ids = set()
         for v in native_res.get('violations', []):
+            if v.get('id') in seen_ids:
+                continue
+            seen_ids.add(v.get('id'))
             kf = [f for f in open_f if v.get('id') in f.get('native_ids', [])]
             if kf:
                 known_hit.append((kf[0], v.get('id')))
